@@ -679,7 +679,8 @@ pub fn issue_op(c: &mut Commands, op: Op, cmd: CmdId, top: bool, rm: Option<&mut
                 Variant::Plain => c.react().once(bundle, plain_actor(new_id, false, true, vec![])),
                 Variant::NoTake => c.react().once(bundle, plain_actor(new_id, false, false, vec![])),
                 Variant::Erring => c.react().once(bundle, erring_actor(new_id, vec![])),
-                Variant::Exclusive => c.react().once(bundle, exclusive_actor(new_id, vec![])),
+                Variant::Exclusive => c.react().once(bundle, exclusive_actor(new_id, vec![], false)),
+                Variant::ExclusiveFlush => c.react().once(bundle, exclusive_actor(new_id, vec![], true)),
             };
             let e = *SystemCommand::from(tok.clone());
             with_ctx(|x| {
@@ -830,7 +831,7 @@ pub fn erring_actor(id: ActorId, sigs: Vec<AutoDespawnSignal>) -> impl FnMut(Com
 }
 
 /// Exclusive actors: readers through a cached `SystemState`, commands through `world.commands()`.
-pub fn exclusive_actor(id: ActorId, sigs: Vec<AutoDespawnSignal>)
+pub fn exclusive_actor(id: ActorId, sigs: Vec<AutoDespawnSignal>, flush_first: bool)
     -> impl FnMut(&mut World, &mut SystemState<AllReaders<'static, 'static>>, Local<u32>) + Send + Sync + 'static
 {
     let canary = Canary(id);
@@ -838,12 +839,13 @@ pub fn exclusive_actor(id: ActorId, sigs: Vec<AutoDespawnSignal>)
     move |world: &mut World, st: &mut SystemState<AllReaders<'static, 'static>>, mut local: Local<u32>|
     {
         let _keep = (&canary, &sigs);
+        if flush_first { world.flush(); }
         let (readers, held) = {
             let mut r = st.get_mut(world);
             sample_readers(&mut r, true)
         };
         let mut c = world.commands();
-        actor_run(id, &mut c, readers, *local, closure_ctr, Variant::Exclusive, None);
+        actor_run(id, &mut c, readers, *local, closure_ctr, if flush_first { Variant::ExclusiveFlush } else { Variant::Exclusive }, None);
         drop(held);
         *local += 1;
         closure_ctr += 1;
@@ -857,7 +859,8 @@ fn spawn_actor_world(world: &mut World, id: ActorId, variant: Variant, sigs: Vec
         Variant::Plain => world.spawn_system_command(plain_actor(id, false, true, sigs)),
         Variant::NoTake => world.spawn_system_command(plain_actor(id, false, false, sigs)),
         Variant::Erring => world.spawn_system_command(erring_actor(id, sigs)),
-        Variant::Exclusive => world.spawn_system_command(exclusive_actor(id, sigs)),
+        Variant::Exclusive => world.spawn_system_command(exclusive_actor(id, sigs, false)),
+        Variant::ExclusiveFlush => world.spawn_system_command(exclusive_actor(id, sigs, true)),
     };
     with_ctx(|x| {
         x.names.insert(*sc, Name::Actor(id));
@@ -873,7 +876,8 @@ fn spawn_actor_commands(c: &mut Commands, id: ActorId, variant: Variant) -> Syst
         Variant::Plain => c.spawn_system_command(plain_actor(id, false, true, vec![])),
         Variant::NoTake => c.spawn_system_command(plain_actor(id, false, false, vec![])),
         Variant::Erring => c.spawn_system_command(erring_actor(id, vec![])),
-        Variant::Exclusive => c.spawn_system_command(exclusive_actor(id, vec![])),
+        Variant::Exclusive => c.spawn_system_command(exclusive_actor(id, vec![], false)),
+        Variant::ExclusiveFlush => c.spawn_system_command(exclusive_actor(id, vec![], true)),
     };
     with_ctx(|x| {
         x.names.insert(*sc, Name::Actor(id));
